@@ -26,26 +26,26 @@ open Panqec
     function `pureDecode` of the immutable attributes and `s` — whatever the ldpc objects'
     channel probabilities and result buffers were left at, with or without
     `channel_update`, CSS or not. -/
-theorem bposd_history_independent (S : BpSolver) (d : BpDec) (hist : List Vec) (s : Vec) :
+theorem bposd_history_independent (S : BpSolver) (d : BpDec_dec) (hist : List Vec) (s : Vec) :
     (d.decode S (d.run S BpSt.init hist) s).2.2 = d.pureDecode S s :=
   (d.decode_eq_pure S _ s (d.run_good S hist _ d.good_init)).1
 
 /-- in particular a reused object and a fresh object return the same correction -/
-theorem bposd_reused_eq_fresh (S : BpSolver) (d : BpDec) (hist : List Vec) (s : Vec) :
+theorem bposd_reused_eq_fresh (S : BpSolver) (d : BpDec_dec) (hist : List Vec) (s : Vec) :
     (d.decode S (d.run S BpSt.init hist) s).2.2 = (d.decode S BpSt.init s).2.2 := by
   rw [bposd_history_independent S d hist s, ← bposd_history_independent S d [] s]
   rfl
 
 /-- the ldpc result buffer (`osdw_decoding`) never reaches the output: two states that differ
     only in channel probabilities and buffers give the same correction -/
-theorem bposd_ignores_buffers (S : BpSolver) (d : BpDec) (st st' : BpSt) (s : Vec)
+theorem bposd_ignores_buffers (S : BpSolver) (d : BpDec_dec) (st st' : BpSt) (s : Vec)
     (h : d.Good st) (h' : d.Good st') :
     (d.decode S st s).2.2 = (d.decode S st' s).2.2 := by
   rw [(d.decode_eq_pure S st s h).1, (d.decode_eq_pure S st' s h').1]
 
 /-- the lazily initialised flag is set by the first call and the ldpc objects are then
     never rebuilt: every reachable state keeps the objects built from `Hx`/`Hz`/`H` -/
-theorem bposd_reachable_states_good (S : BpSolver) (d : BpDec) (hist : List Vec) :
+theorem bposd_reachable_states_good (S : BpSolver) (d : BpDec_dec) (hist : List Vec) :
     d.Good (d.run S BpSt.init hist) :=
   d.run_good S hist _ d.good_init
 
@@ -87,7 +87,7 @@ def toyBp : BpSolver :=
   { decode := fun _ _ p s => (s ++ List.replicate p.length 0).take p.length,
     converged := fun _ _ _ _ => false }
 
-def toyDec : BpDec :=
+def toyDec : BpDec_dec :=
   { H := [[1, 1, 0, 0], [0, 0, 1, 1]], n := 2, px := [1/8, 1/8], py := [1/16, 1/16],
     pz := [1/4, 1/4], cfg := ⟨1/8, 10, 0, "minimum_sum", true⟩ }
 
